@@ -118,8 +118,14 @@ class extract_visitor(NodeVisitor):
 
         body_start = self.make_flow('for', [cur])
         for nn, _idx in get_indexes_for_target(node.target, [], []):
-            name = nn  # type: ast.Name # type: ignore[assignment]
-            body_start.add_name(AssignedName(name.id, np(node.body[0]), np(name), node.iter))
+            if isinstance(nn, Attribute):
+                self.top.add_attr_assign(self.flow.scope, nn, node.iter)
+            elif isinstance(nn, UNSUPPORTED_ASSIGMENTS):
+                continue
+            else:
+                name = nn  # type: ast.Name # type: ignore[assignment]
+                body_start.add_name(AssignedName(name.id, np(node.body[0]), np(name), node.iter))
+        self.visit_in_flow(node.target, cur)
         body = self.visit_in_flow(node.body, body_start)
         body_start.loop(body)
 
@@ -293,6 +299,9 @@ class extract_visitor(NodeVisitor):
             pp = p
             p = self.make_flow('comp', [p])
             for nn, _idx in get_indexes_for_target(g.target, [], []):
+                if isinstance(nn, (Attribute, UNSUPPORTED_ASSIGMENTS)):
+                    self.visit_in_flow(nn, pp)
+                    continue
                 name = nn  # type: ast.Name # type: ignore[assignment]
                 name.flow = pp  # type: ignore[attr-defined]
                 p.add_name(AssignedName(name.id, np(node), np(name), g.iter))
